@@ -44,7 +44,7 @@ ASSUMPTIONS = [
     "single population type only (gen_model does not generate several types)",
 ]
 BUDGET = {"quick": 640, "thorough": 20000}
-TIME_CAP = {"quick": 60, "thorough": 1150}
+TIME_CAP = {"quick": 50, "thorough": 1150}
 RTOL_CONTENT = 1e-14
 RTOL_SIM = 1e-9
 
